@@ -57,6 +57,7 @@ func (s *HermesSession) Open(fd *FileDescriptior) (*os.File, *bufio.Scanner, err
 	if err != nil {
 		if fd.ContinueOnError {
 			if fd.debugOut != nil {
+				verifYield("send.debug", fd.logID, fd.FilePath)
 				fd.debugOut <- fmt.Sprintf("%s Error occured while reading %s: %s   \n", fd.logID, fd.FileDescription, fd.FilePath)
 			} else {
 				fmt.Printf("Error occured while reading %s: %s   \n", fd.FileDescription, fd.FilePath)
@@ -88,6 +89,7 @@ func (s *HermesSession) ReadFile(fd *FileDescriptior) ([]byte, error) {
 	if err != nil {
 		if fd.ContinueOnError {
 			if fd.debugOut != nil {
+				verifYield("send.debug", fd.logID, fd.FilePath)
 				fd.debugOut <- fmt.Sprintf("%s Error occured while reading %s: %s   \n", fd.logID, fd.FileDescription, fd.FilePath)
 			} else {
 				fmt.Printf("Error occured while reading %s: %s   \n", fd.FileDescription, fd.FilePath)
